@@ -9,7 +9,9 @@ CONFIG = dict(
              'size met, 2^30} x in memory / on disk (sweep); faults (dirfault: hibernation directory that does not exist, whose parent is a regular '
              'file, chmod 0555; tamper: an extra pipeline item deployed in the same pipeline removes every *-hercules.bin file or truncates it to 0, 1, '
              'a quarter, half, size-9, -4, -2, -1 or the same size when its Consume is called while some branch sleeps on disk, at the first such moment or after skipping '
-             'up to 3).  Three quarters of the runs deploy a delegating wrapper around the real BurndownAnalysis that records every Hibernate/Boot '
+             'up to 3); octo / octotamper: harness/synth.GenOctopusHib histories (1-2 octopus merges of 4..7 parents - every third history 3..k -, arms of '
+             'different lengths, a chain after the merge, 1-2 roots, single head) x distance 1..4 x threshold {0, 1, an arena size met} x memory/disk '
+             'plus 4 tamper runs: an octopus of at least distance+3 parents makes ONE boot action cover several sleeping branches.  Three quarters of the runs deploy a delegating wrapper around the real BurndownAnalysis that records every Hibernate/Boot '
              'call (arena size before/after, temp-file name and length, error), the rest runs the bare item.  Every case records the digest of the '
              'complete canonical result text (all matrices, ownership, people dictionary) or the error/panic, the plan Run executed (its own '
              'prepareRunPlan call, read through the plan printer), the directory listing before every plan step and after Run. '
@@ -20,9 +22,11 @@ CONFIG = dict(
             'C06 (allocator): Boot(Hibernate(a)) = a for a non-empty arena at or above the threshold (Section hypothesis boot_hibernate, discharged by '
             'C06_boot_hibernate), Deserialize(Serialize(h)) = h (file_roundtrip: C06_file_roundtrip / C06_disk_roundtrip) and Deserialize of every PROPER '
             'PREFIX of the file fails (truncation_detected: C06_truncated).  Only truncation to a proper prefix is detected; overwriting bytes or '
-            'appending is not a truncation and the format has no checksum.',
+            'appending is not a truncation and the format has no checksum.  Discharged inside Coq for the allocator-backed item alloc_ops built from C06\'s '
+            'hibernate / boot / serialize / deserialize (C09_item_assumptions_composed, docs/COMPOSITION.md); LZ4 stays a hypothesis (lz4_ok, lz4_small).',
             'C04 (planner): the plan Run executes satisfies the branch lifecycle predicate lifecycle_ok_h (C04_hib proves it of insertHibernateBoot); '
-            'the predicate is also evaluated on every executed plan of the replay.',
+            'the predicate is also evaluated on every executed plan of the replay.  Proved in Coq from C04_hib through the plan translation fwd_plan '
+            '(C09_lifecycle_composed, C09_erasure_composed, C09_faults_composed).',
             'ioutil.TempFile never returns a name twice during a run nor the name of a file that exists (hypotheses on io_name); the adversary '
             'removes or truncates files but does not create or overwrite them.',
             'The analysis item is abstract in the theorems (any Consume/Fork/Merge/Finalize, any state): what is assumed of BurndownAnalysis is that '
